@@ -23,6 +23,7 @@ type c09Case struct {
 	Missing bool         `json:"missing,omitempty"` // the target directory given with WithTargetDir does not exist yet
 	PreOps  []string     `json:"preOps,omitempty"`
 	PreRoot bool         `json:"preRoot,omitempty"` // the first root already exists in the target (the real run would fail with "path already exists")
+	Color   bool         `json:"color,omitempty"`   // (simple mode) the dry run is made with colours enabled, as on a terminal
 	Full    bool         `json:"full,omitempty"`    // the dry run's target is a file system without room for a single entry (a dry run creates nothing, so it cannot notice)
 	NoIter  bool         `json:"noIter,omitempty"`  // output-md: with WithNoUseIterOfSimpleOutput (the non-iterator code path of the simple mode)
 }
@@ -48,6 +49,7 @@ func c09Check(c c09Case) string {
 	dry.Opts.DryRun = true
 	dry.Opts.Exts = c.Exts
 	dry.Opts.Massive = c.Massive
+	dry.Opts.Color = c.Color && !c.Massive
 	dry.Opts.NoIter = c.NoIter && c.Route == "output-md"
 	dry.FS = &ops.FSSpec{}
 	dry.Opts.TargetOpt = "default" // the working directory is the target, as on the command line
@@ -116,7 +118,13 @@ func c09Check(c c09Case) string {
 	}
 	merged := model.Merge(f)
 	blocks := model.DryRunReport(merged, model.DefaultBranch, c.Exts)
-	if c.Massive {
+	if c.Color && !c.Massive {
+		// with colours the report is the same text with colour sequences AROUND the names (which colours is the library's
+		// choice); every name must still be there verbatim, whatever it contains
+		if msg := colouredReportOK(report, merged, c.Exts); msg != "" {
+			return fmt.Sprintf("%scoloured dry-run report: %s\ngot:\n%q\nplain report:\n%q", head, msg, report, strings.Join(blocks, ""))
+		}
+	} else if c.Massive {
 		if !isPermutationOfBlocks(report, blocks) {
 			return fmt.Sprintf("%sdry-run report is not a permutation of the per-root blocks (tree text + counts)\ngot:\n%swant (any order):\n%s", head, report, strings.Join(blocks, ""))
 		}
@@ -208,6 +216,9 @@ func c09Record(col *collector, c c09Case) {
 	if c.NoIter && c.Route == "output-md" {
 		cl = append(cl, "no-iter-path")
 	}
+	if c.Color && !c.Massive {
+		cl = append(cl, "colours-enabled")
+	}
 	if c.Full && !c.Missing && !c.PreRoot && c.Route != "mkdir-md" {
 		cl = append(cl, "dry-run-on-a-full-file-system")
 	}
@@ -255,6 +266,10 @@ func TestC09Random(t *testing.T) {
 		if rapid.IntRange(0, 2).Draw(rt, "hostile") == 0 {
 			names = rapid.OneOf(sampled(c07Hostile(entry)), sampled(validElemPool()), sampled(validElemPool()), sampled(validElemPool()))
 		}
+		if entry == "root" && rapid.IntRange(0, 3).Draw(rt, "newlineNames") == 0 {
+			// From-Root names may hold line breaks (valid in a path element on this system): the report is still the tree text
+			names = rapid.OneOf(sampled(validElemPool()), sampled(validElemPool()), sampled([]string{"notes\n", "a\nb", "\n", "x\n\n", "\ny"}))
+		}
 		f := genForest(forestParams{maxNodes: 12, maxDepth: 6, names: names, oneRoot: entry == "root"}).Draw(rt, "forest")
 		if hasDupRoots(f) && f.AllNames(model.ValidElem) {
 			uniqRoots(f)
@@ -262,6 +277,9 @@ func TestC09Random(t *testing.T) {
 		c := c09Case{Forest: f, Route: route, Massive: rapid.IntRange(0, 2).Draw(rt, "massive") == 0, Exts: genExts(extSources(f)).Draw(rt, "exts")}
 		c.NoIter = route == "output-md" && rapid.IntRange(0, 2).Draw(rt, "noIter") == 0
 		c.Full = mountOK() && rapid.IntRange(0, 4).Draw(rt, "full") == 0
+		noNewline := true
+		f.Walk(func(_ int, ch []*model.T) { noNewline = noNewline && !strings.Contains(ch[len(ch)-1].Name, "\n") })
+		c.Color = !c.Massive && noNewline && rapid.IntRange(0, 3).Draw(rt, "colour") == 0
 		c.Missing = rapid.IntRange(0, 3).Draw(rt, "missingTarget") == 0
 		c.PreRoot = rapid.IntRange(0, 3).Draw(rt, "preRoot") == 0
 		if route == "mkdir-root" && rapid.IntRange(0, 2).Draw(rt, "withPreOps") == 0 {
@@ -308,4 +326,68 @@ func TestC09Exhaustive(t *testing.T) {
 		}
 	})
 	col.Exhaustive = true
+}
+
+
+var sgrOnly = regexp.MustCompile(`^(\x1b\[[0-9;]*m)*$`)
+var sgrAny = regexp.MustCompile(`\x1b\[[0-9;]*m`)
+
+// colouredReportOK: line by line, the coloured report must be branch + " " + <colour sequences> + name + <colour sequences>
+// for every node, then an empty line and the counts (colour sequences allowed anywhere in the counts line).
+func colouredReportOK(report string, merged model.Forest, exts []string) string {
+	rest := report
+	next := func() (string, bool) {
+		if rest == "" {
+			return "", false
+		}
+		i := strings.Index(rest, "\n")
+		if i < 0 {
+			l := rest
+			rest = ""
+			return l, true
+		}
+		l := rest[:i]
+		rest = rest[i+1:]
+		return l, true
+	}
+	for _, r := range merged {
+		_, facts := model.Render(model.Forest{r}, model.DefaultBranch)
+		for _, f := range facts {
+			line, ok := next()
+			if !ok {
+				return fmt.Sprintf("the report ends before the line of node %q", f.Name)
+			}
+			prefix := ""
+			if f.Level > 1 {
+				prefix = f.Branch + " "
+			}
+			if !strings.HasPrefix(line, prefix) {
+				return fmt.Sprintf("line %q does not start with the branch %q", line, prefix)
+			}
+			body := line[len(prefix):]
+			found := false
+			for i := 0; i+len(f.Name) <= len(body); i++ {
+				if body[i:i+len(f.Name)] == f.Name && sgrOnly.MatchString(body[:i]) && sgrOnly.MatchString(body[i+len(f.Name):]) {
+					found = true
+					break
+				}
+			}
+			if !found {
+				return fmt.Sprintf("line %q is not the name %q between colour sequences", line, f.Name)
+			}
+		}
+		if line, ok := next(); !ok || line != "" {
+			return fmt.Sprintf("want an empty line after the tree of root %q, got %q", r.Name, line)
+		}
+		d, fl := model.CountKinds(r, exts)
+		want := fmt.Sprintf("%d directories, %d files", d, fl)
+		line, _ := next()
+		if sgrAny.ReplaceAllString(line, "") != want {
+			return fmt.Sprintf("counts line %q, want %q", line, want)
+		}
+	}
+	if rest != "" {
+		return fmt.Sprintf("trailing text %q", rest)
+	}
+	return ""
 }
